@@ -45,7 +45,7 @@ func runC03(c *eng.Ctx, tier string) {
 	// is rolled back exactly (C04) and mutations and their saves are serialised
 	// by the exclusive lock (C14): two saves that interleave can persist the
 	// older image last
-	includeOnly(c, "R-C03-6", func(sc *eng.Ctx) { runC04(sc, "quick") }, "R-C04-3")
+	includeOnly(c, "R-C03-6", func(sc *eng.Ctx) { runC04(sc, "quick") }, "R-C04-1", "R-C04-3")
 	includeOnly(c, "R-C03-6", func(sc *eng.Ctx) { runC14(sc, "quick") }, "R-C14-1")
 	// ... and an acknowledged put stored what it acknowledged (C02's numbering rules)
 	includeOnly(c, "R-C03-6", func(sc *eng.Ctx) { runC02(sc, "quick") }, "R-C02-2", "R-C02-3", "R-C02-9")
@@ -453,6 +453,10 @@ func c03Wire(c *eng.Ctx, k *kvAnalysis) {
 				// the version is the schema constant or the (checked) version read from the file
 				okVer := true
 				for _, vv := range vars {
+					// (a helper's version parameter bound to the schema constant at its call site)
+					if k, isK := eng.ConstInt(eng.OriginX(vv)); isK && k == schema {
+						continue
+					}
 					fr, _, isF := eng.LoadedField(eng.OriginX(vv))
 					if !isF || !fr.Is("db", dbTypeName(c.P, "wrapped"), "Version") {
 						okVer = false
